@@ -78,42 +78,60 @@ def r2_kind(ctx):
             continue
         ctx.touched(f)
         cfg = cfg_of(f.node)
-        lazies = [s for s in function_stmts(f) if isinstance(s, ast.Assign) and isinstance(s.value, ast.Call)
-                  and callee_last(s.value) == "lazy"]
-        if not lazies:
-            ctx.ob("R2", f, f"{f.short}: DataFrame -> LazyFrame conversion", False,
-                   "no .lazy() conversion: a polars DataFrame is handed to the LazyFrame backend as is")
+        data = f.positional[1]
+        fdef = [s for s in function_stmts(f) if isinstance(s, ast.Assign) and len(s.targets) == 1 and isinstance(s.targets[0], ast.Name)
+                and isinstance(s.value, ast.Call) and callee_last(s.value) == "isinstance" and s.value.args and txt(s.value.args[0]) == data
+                and "DataFrame" in txt(s.value.args[1])]
+        if len(fdef) != 1:
+            ctx.ob("R2", f, f"{f.short}: container kind of the argument is recorded", False,
+                   f"no single `flag = isinstance({data}, pl.DataFrame)` of the object as passed: the kind of the result cannot follow the kind of the input")
             continue
-        flag_tests = {n.id for n in cfg.nodes if n.kind == "test" and isinstance(n.ast, ast.Name)}
-        for lz in lazies:
-            ln = cfg.node_of(lz)
-            guards = [(txt(t), p) for t, p in cfg.guards(ln.id)]
-            flag = [g for g, p in guards if p and g.isidentifier()]
-            if not flag:
-                ctx.ob("R2", f, f"{f.short}: `{txt(lz)}`", False, f"conversion not under a kind flag (guards {guards})", f.loc(lz))
-                continue
-            fname = flag[-1]
-            # definition of the flag: isinstance(<param>, pl.DataFrame) evaluated before the conversion
-            fdef = [s for s in function_stmts(f) if isinstance(s, ast.Assign) and any(
-                isinstance(t, ast.Name) and t.id == fname for t in s.targets)]
-            okdef = len(fdef) == 1 and isinstance(fdef[0].value, ast.Call) and callee_last(fdef[0].value) == "isinstance" \
-                and txt(fdef[0].value.args[0]) == f.positional[1] and "DataFrame" in txt(fdef[0].value.args[1])
-            collects = {cfg.node_of(enclosing_stmt(c)).id for c in calls_in(f.node) if callee_last(c) == "collect"
-                        and cfg.node_of(enclosing_stmt(c)) is not None}
-            rets = {n.id for n in cfg.nodes if n.kind == "stmt" and isinstance(n.ast, ast.Return) and n.id in cfg.reachable(ln.id)}
-            skip = {(n.id, "False") for n in cfg.nodes if n.kind == "test" and isinstance(n.ast, ast.Name) and n.ast.id == fname}
-            path = _must_pass_skip(cfg, ln.id, rets, collects, skip)
-            ok = okdef and bool(rets) and path is None
-            ctx.ob("R2", f, f"{f.short}: `{txt(lz)}` is matched by .collect() under `{fname}`", ok,
-                   "every path from the conversion to a return passes .collect() when the flag is set" if ok else
-                   (f"flag {fname} is not `isinstance({f.positional[1]}, pl.DataFrame)` of the object as passed" if not okdef else
-                    "a path returns the LazyFrame although a DataFrame was passed: lines " +
-                    " -> ".join(str(cfg.nodes[i].lineno) for i in (path or []) if cfg.nodes[i].lineno)), f.loc(lz))
-            # the collected value is what is returned
-            for r in rets:
-                rn = cfg.nodes[r]
-                ctx.ob("R2", f, f"{f.short}: `{txt(rn.ast)}` returns the validated output", isinstance(rn.ast.value, ast.Name),
-                       "returns the working name" if isinstance(rn.ast.value, ast.Name) else "returns an expression")
+        fname = fdef[0].targets[0].id
+        start_id = cfg.node_of(fdef[0]).id
+
+        def has_call(node, name):
+            return node.ast is not None and node.kind in ("stmt", "test", "with") and any(callee_last(c) == name for c in calls_in(node.ast))
+
+        def walk(v):
+            """returns reached when the flag has value v: [(return node, converted, collected)]"""
+            out, seen, todo = [], set(), [(start_id, False, False)]
+            while todo:
+                nid, conv, coll = todo.pop()
+                if (nid, conv, coll) in seen:
+                    continue
+                seen.add((nid, conv, coll))
+                n = cfg.nodes[nid]
+                conv = conv or has_call(n, "lazy")
+                coll = coll or has_call(n, "collect")
+                if n.kind == "stmt" and isinstance(n.ast, ast.Return):
+                    out.append((n, conv, coll))
+                    continue
+                for b, lab in cfg.succ[nid]:
+                    if lab in ("exc", "fin-exc"):
+                        continue
+                    if n.kind == "test" and lab in ("True", "False"):
+                        t, pol = n.ast, True
+                        while isinstance(t, ast.UnaryOp) and isinstance(t.op, ast.Not):
+                            t, pol = t.operand, not pol
+                        if isinstance(t, ast.Name) and t.id == fname:
+                            val = v if pol else not v
+                            if (lab == "True") != val:
+                                continue
+                    todo.append((b, conv, coll))
+            return out
+
+        df_rets, lf_rets = walk(True), walk(False)
+        bad_df = [n for n, conv, coll in df_rets if not (conv and coll)]
+        bad_lf = [n for n, conv, coll in lf_rets if coll]
+        ctx.ob("R2", f, f"{f.short}: a DataFrame is converted with .lazy() and every return hands back .collect()", bool(df_rets) and not bad_df,
+               f"{len(df_rets)} return(s) under `{fname}`: all converted and collected" if df_rets and not bad_df else
+               (f"with a pl.DataFrame argument the return at line {bad_df[0].lineno} is reached without "
+                f"{'.lazy() conversion' if not [c for n_, c, _ in df_rets if n_ is bad_df[0]][0] else '.collect()'}: the caller gets a LazyFrame for a DataFrame"
+                if bad_df else "no return reached"), f.loc(fdef[0]))
+        ctx.ob("R2", f, f"{f.short}: a LazyFrame stays lazy", bool(lf_rets) and not bad_lf,
+               f"{len(lf_rets)} return(s) under `not {fname}`: none collects" if lf_rets and not bad_lf else
+               (f"with a pl.LazyFrame argument the return at line {bad_lf[0].lineno} collects: the caller gets a DataFrame for a LazyFrame" if bad_lf else "no return reached"),
+               f.loc(fdef[0]))
     eng = engine(ix)
     for cq, f, fl in api_entries(ix, names=("validate",)):
         if fl != "pandas":
